@@ -22,3 +22,11 @@ BOUNDS = {"atoms": "bit length in {1,2,7,8,9,12,15,16,17,24,31,32,33,63,64} x bi
           "explicit and overlapping positions, constants, defaults, reserved, length key, response "
           "with request echo), every leaf value symbolic"}
 ASSUMPTIONS = ["quick tier: seeded half of the integer atom product plus all boundary members"]
+
+
+def canaries(tier):
+    """differential validation of the bitstruct model against both real back ends"""
+    from models import selftest
+    r = selftest.run(seed=0)
+    return {"bitstruct_model_vs_real_backends_cases": r["checked"],
+            "failed": [f"bitstruct model differs from the real back end: {m}" for m in r["failed"]]}
